@@ -162,6 +162,8 @@ class Gen:
             s["input"] = s["input"][:s["cfg"]["in_cap"]]
             s["output"] = s["output"][:s["cfg"]["out_cap"]]
             s["graph"] = s["graph"][:s["cfg"]["graph_cap"]]
+        if r.random() < 0.1:   # the probability of a new name is a configuration value like any other (CODE.RAND consults it)
+            s["cfg"]["new_name_p"] = r.choice([0, f2b(0.5), f2b(1.0), f2b(1.5), f2b(-0.25), 2143289344])
         if r.random() < 0.5:   # rotated ring positions (invisible in the abstract state)
             s["rot"] = {"input": r.randint(0, 12), "output": r.randint(0, 4), "graph": r.choice([0, 0, 1, 99, 100, 150])}
         if r.random() < 0.3:
